@@ -79,19 +79,32 @@ fn self_validate() -> Result<(), String> {
 
 // ---------------------------------------------------------------- cases
 
-fn gmap_case(container: &str, h: &[u8], cont: usize) -> Value {
-    json!({"kind": "gmap", "container": container, "h": h, "cont": cont,
+fn gmap_case(kind: &str, container: &str, h: &[u8], cont: usize) -> Value {
+    json!({"kind": kind, "container": container, "h": h, "cont": cont,
            "text": format!("{} (L/G k=v: local/global insert, {{ begin_group, }} end_group)", gmap::render(h)),
-           "test_body": "let mut m = GroupingHashMap::default(); /* apply the operations of `text` in order; compare get/len/iter and from_iter(iter_all()) with the expected values */"})
+           "test_body": "let mut m = GroupingHashMap::default() /* or GroupingVec */; apply the operations of `text` in order; compare get/len/iter, and for cont > 0 rebuild with m.iter_all().collect() and apply every continuation of that length"})
 }
 
-fn run_gmap(container: &str, idx: u64, h: &[u8], cont: usize, acc: &mut Acc) -> Option<gmap::Fp> {
+/// One history: step-by-step comparison, drain, replay law at the state reached.
+fn run_gmap(container: &str, idx: u64, h: &[u8], acc: &mut Acc) -> Option<gmap::Fp> {
     acc.eval();
-    let case = || gmap_case(container, h, cont);
+    let case = || gmap_case("gmap", container, h, 0);
     if container == "hash" {
-        judge(idx, acc, &case, &|acc: &mut Acc| gmap::check_history::<HashMap<usize, u8>>(h, cont, acc))
+        judge(idx, acc, &case, &|acc: &mut Acc| gmap::check_history::<HashMap<usize, u8>>(h, acc))
     } else {
-        judge(idx, acc, &case, &|acc: &mut Acc| gmap::check_history::<Vec<Option<u8>>>(h, cont, acc))
+        judge(idx, acc, &case, &|acc: &mut Acc| gmap::check_history::<Vec<Option<u8>>>(h, acc))
+    }
+}
+
+/// One state (given by a history that reaches it): the rebuilt container under every continuation.
+fn run_gmap_cont(container: &str, idx: u64, h: &[u8], cont: usize, acc: &mut Acc) {
+    acc.eval();
+    acc.nontrivial();
+    let case = || gmap_case("gmap-cont", container, h, cont);
+    if container == "hash" {
+        judge(idx, acc, &case, &|acc: &mut Acc| gmap::check_continuations::<HashMap<usize, u8>>(h, cont, acc));
+    } else {
+        judge(idx, acc, &case, &|acc: &mut Acc| gmap::check_continuations::<Vec<Option<u8>>>(h, cont, acc));
     }
 }
 
@@ -192,7 +205,7 @@ fn main() {
         for (container, name) in [("hash", "gmap-histories-hashmap"), ("vec", "gmap-histories-vec")] {
             ctx.family(name, &format!("every history of length <= {len} over 10 actions (insert(k,v,Local|Global) for k,v in {{0,1}}, begin_group, end_group also with no group open); after every step return value, get, len, is_empty, iter; at the end drain of end_group calls and replay law (visible values, ==, iter_all of the rebuilt map, drain of the rebuilt map)"), n, |i, acc| {
                 let h: Vec<u8> = vcore::nth_string(gmap::N_ACT as u64, i).into_iter().map(|x| x as u8).collect();
-                run_gmap(container, i, &h, 0, acc);
+                run_gmap(container, i, &h, acc);
                 if i % 100_003 == 4242 {
                     acc.sample(i, || json!({"container": container, "history": gmap::render(&h)}));
                 }
@@ -207,7 +220,14 @@ fn main() {
         let t = std::time::Instant::now();
         let depth = ctx.pick(10usize, 14usize);
         let deadline = std::time::Instant::now() + std::time::Duration::from_secs_f64(ctx.remaining_s().min(ctx.pick(60.0, 2400.0)));
-        let (mut acc, stats) = vcore::xs::bfs(gmap::N_ACT, depth, ctx.pick(3_000_000, 40_000_000), ctx.threads, deadline, gmap::init_fp(), |h, acc| run_gmap(container, u64::MAX, h, 2, acc));
+        let (mut acc, stats) = vcore::xs::bfs(gmap::N_ACT, depth, ctx.pick(3_000_000, 40_000_000), ctx.threads, deadline, gmap::init_fp(), |h, acc| {
+            // the frontier history h[..n-1] is the representative of a distinct state: its continuation
+            // check runs once, together with the first transition out of it
+            if h.last() == Some(&0) {
+                run_gmap_cont(container, u64::MAX, &h[..h.len() - 1], 2, acc);
+            }
+            run_gmap(container, u64::MAX, h, acc)
+        });
         acc.sample(0, || json!({"xs": {"container": container, "depth_completed": stats.depth_completed, "frontier_sizes": stats.frontier_sizes, "states": stats.states}}));
         ctx.extra(
             &format!("xs_{name}"),
@@ -216,7 +236,7 @@ fn main() {
         );
         ctx.push_family(
             name,
-            &format!("BFS to depth {depth} over the same 10 actions, states merged on the exact implementation state; at every transition: model comparison, drain, replay law incl. every continuation of length <= 2 on the rebuilt container"),
+            &format!("BFS to depth {depth} over the same 10 actions, states merged on the exact implementation state; at every transition: model comparison, drain, replay law (visible values, ==, iter_all, drain of the rebuilt container); at every distinct state of depth < {depth} (once, on its representative history): the rebuilt container under every continuation of length <= 2"),
             stats.capped.is_none(),
             stats.capped.clone(),
             t.elapsed().as_secs_f64(),
@@ -340,7 +360,12 @@ fn replay(case: &Value, acc: &mut Acc) {
         Some("gmap") => {
             let h: Vec<u8> = u64s(&case["h"]).into_iter().map(|x| x as u8).collect();
             let container = case["container"].as_str().unwrap_or("hash").to_string();
-            run_gmap(&container, 0, &h, case["cont"].as_u64().unwrap_or(2) as usize, acc);
+            run_gmap(&container, 0, &h, acc);
+        }
+        Some("gmap-cont") => {
+            let h: Vec<u8> = u64s(&case["h"]).into_iter().map(|x| x as u8).collect();
+            let container = case["container"].as_str().unwrap_or("hash").to_string();
+            run_gmap_cont(&container, 0, &h, case["cont"].as_u64().unwrap_or(2) as usize, acc);
         }
         Some("interner") => {
             let ops = u64s(&case["ops"]);
